@@ -211,6 +211,20 @@ class StoreMachine(Machine):
         if status == 'ok':
             self.after_write(name, cfg, want)
             self.ref[name] = {'state': 'ack', 'snap': want, 'cfg': cfg, 'files': files}
+            if ctx.knobs.get('watch_objects') and self.objs.get(slot) is obj:
+                # O7: writing is not editing - the model in memory is what it was (a second
+                # write of the same object must give the same file)
+                from ..globalseam import _same
+                now = self.o6_view(self.snap(obj))
+                w6 = self.o6_view(want)
+                if not _same(w6, now):
+                    try:
+                        self.compare(w6, now, self.o6_cfg(cfg), 'O7: the write of %r changed the '
+                                     'in-memory model' % name)
+                    except Violation as v:
+                        raise Violation('O7', v.msg)
+                    ctx.probes['O7_snapshot_differs_but_compare_equal'] += 1
+                ctx.probes['O7_object_checked_after_write'] += 1
             if ctx.fs.fired and ctx.fs.fired[-1][3] > step_before:
                 # O3: a fault fired inside this write and it returned normally all the same: the
                 # acknowledgement must be honest -- read it back at once, fault free
